@@ -399,6 +399,65 @@ func genCodecSrc(repo string) (string, error) {
 			}
 		}
 		sw["thrift_copies_frame"] = cp
+		// encoder slow path: every slice of the scratch buffer that a length field is written through (PutUint16/32(x[...]))
+		// is taken (x := bufferBytes.Bytes()) AFTER the last write to the scratch buffer - a slice taken earlier is stale
+		// once Write had to grow the buffer
+		fset, f, err = ParseGoFile(repo, "pkg/protocol/xprotocol/dubbothrift/encoder.go")
+		if err != nil {
+			return "", err
+		}
+		late, seen := true, 0
+		if fd := FindFunc(f, "", "encodeFrame"); fd != nil {
+			var lastWrite token.Pos
+			taken := map[string]token.Pos{} // slice variable -> where it was taken from the scratch buffer
+			ast.Inspect(fd.Body, func(nd ast.Node) bool {
+				switch x := nd.(type) {
+				case *ast.CallExpr:
+					if c := src(fset, x.Fun); (c == "bufferBytes.Write" || strings.HasPrefix(c, "protocol.Write") || c == "transport.Write" || c == "protocol.Flush") && x.Pos() > lastWrite {
+						lastWrite = x.Pos()
+					}
+				case *ast.AssignStmt:
+					if len(x.Lhs) == 1 && len(x.Rhs) == 1 && src(fset, x.Rhs[0]) == "bufferBytes.Bytes()" {
+						taken[src(fset, x.Lhs[0])] = x.Pos()
+					}
+				}
+				return true
+			})
+			ast.Inspect(fd.Body, func(nd ast.Node) bool {
+				ce, isCall := nd.(*ast.CallExpr)
+				if !isCall || len(ce.Args) == 0 {
+					return true
+				}
+				if c := src(fset, ce.Fun); c != "binary.BigEndian.PutUint16" && c != "binary.BigEndian.PutUint32" {
+					return true
+				}
+				base := ce.Args[0]
+				if se, isSlice := base.(*ast.SliceExpr); isSlice {
+					base = se.X
+				}
+				name := src(fset, base)
+				switch pos, fromScratch := taken[name]; {
+				case fromScratch:
+					seen++
+					if pos < lastWrite {
+						late = false
+					}
+				case name == "data": // the output array, allocated with its final size
+					seen++
+				default:
+					if strings.Contains(name, "bufferBytes") {
+						late = false
+					} else {
+						unknown("dubbothrift encodeFrame length field target", name)
+					}
+				}
+				return true
+			})
+		}
+		if seen < 3 {
+			unknown("dubbothrift encodeFrame", fmt.Sprintf("%d length field writes recognised, 3 expected", seen))
+		}
+		sw["thrift_enc_fields_after_body"] = late
 	}
 
 	// 4. dubbo SetData drops the raw frame
